@@ -680,6 +680,9 @@ func init() {
 			na := dspx.RunNoAlias(def)
 			na.Floor("slice_returning_methods", 9)
 			res.Merge(na)
+			cp := swapx.Run(def, core.Pkgs("./dsp/..."))
+			cp.Floor("complex_constructions", 20)
+			res.Merge(cp)
 			pu := paramuse.Run(def, core.Pkgs("./dsp/..."))
 			pu.Floor("parameters", 270)
 			res.Merge(pu)
